@@ -524,6 +524,39 @@ def case_wf(ctx, rng):
     check_eq(ctx, rng, s, w, x)
     check_index(ctx, rng, w, x)
     check_change_duration(ctx, rng, s, w)
+    check_handed_out(ctx, s, w, x)
+
+
+def check_handed_out(ctx, s: dict, w, x: np.ndarray) -> None:
+    """What a waveform hands out (its samples, the component list of a composite, the data points of an interpolated
+    waveform) is the caller's to edit: the waveform keeps exactly `duration` samples with the values it had."""
+    cls = CLS.get(s["k"], "CustomWaveform")
+    d0 = int(w.duration)
+    try:
+        a = w.samples.as_array(detach=True) if hasattr(w.samples, "as_array") else np.asarray(w.samples)
+        if isinstance(a, np.ndarray) and a.flags.writeable and a.size:
+            a += 1e6
+        comps = getattr(w, "waveforms", None)
+        if isinstance(comps, list) and comps:
+            comps.append(comps[0])
+            comps.reverse()
+        dp = getattr(w, "data_points", None)
+        if isinstance(dp, np.ndarray) and dp.flags.writeable and dp.size:
+            dp *= -3.0
+    except Exception as e:
+        ctx.violation("handed-out", f"{cls}: reading samples / waveforms / data_points raised {e!r}"[:300], f"handed-out-raises:{cls}")
+        return
+    ctx.count("handed_out_objects_edited")
+    try:
+        x2, d2 = samples_of(w), int(w.duration)
+    except Exception as e:
+        ctx.violation("handed-out", f"{cls}: after editing what it handed out, samples / duration raised {e!r}"[:300],
+                      f"handed-out-breaks:{cls}")
+        return
+    if d2 != d0 or len(x2) != d0 or not np.array_equal(x2, x, equal_nan=True):
+        ctx.violation("handed-out", f"{cls}: after editing the objects it handed out the waveform has duration {d2} (was {d0}), "
+                      f"{len(x2)} samples, values {'changed' if len(x2) == len(x) and not np.array_equal(x2, x, equal_nan=True) else 'same'}",
+                      f"handed-out-aliases:{cls}")
 
 
 # ------------------------------------------------------------------------------------------ from_max_val
